@@ -264,7 +264,10 @@ def rule_phases(chk, prog):
         # `curr = actionList.begin()` is an assignment in the for-init, not a declaration
         loops = [n for n in fn.nodes() if n.get("k") == "ForStmt" and "actionList.begin()" in norm(n.get("init"))
                  and len([a for a in fn.ancestors(n) if a.get("k") == "ForStmt"]) == 0]
-    top = [n for n in fn.nodes() if n.get("k") == "ForStmt" and "actionList.begin()" in norm(n.get("init"))]
+    # the four phases walk the list with the function's own iterator `curr`; a nested helper pass with its own iterator (e.g. the
+    # rewrite of queued ends before an obstacle is freed) is not a phase
+    top = [n for n in fn.nodes() if n.get("k") == "ForStmt" and "actionList.begin()" in norm(n.get("init"))
+           and not any(a.get("k") == "ForStmt" for a in fn.ancestors(n))]
     if len(top) != 4:
         raise AnalysisBroken("processActions: expected four scans of the action list, found %d" % len(top))
     top.sort(key=lambda n: n["l"])
